@@ -31,6 +31,13 @@ type Adversary struct {
 	Kinds    map[string]bool // enabled fault kinds
 	Budget   int             // max number of injections
 	Rate     uint64          // 1/Rate of the possible recipes are candidates
+	// Collude = {b1, b2}: two Byzantine participants mirror each other. b1 shows the honest parties of group 1
+	// its broadcast A and those of group 2 the variant B; b2 withholds its own broadcasts and transmits, as its
+	// own broadcast of the same round, B to group 1 and A to group 2; each of the two acknowledges the other's
+	// broadcast towards every honest party with the digest that party was shown. Whatever the code confuses
+	// about the two senders (identifier encodings, bookkeeping keyed by sender and round) turns the honest
+	// parties' acknowledgements about one of them into vouchers for the other.
+	Collude *[2]uint16
 
 	scanned int
 	pending []*recipe
@@ -39,9 +46,10 @@ type Adversary struct {
 }
 
 type recipe struct {
-	key  string
-	kind string
-	fire func()
+	key    string
+	kind   string
+	fire   func()
+	weight float64 // 0: default; recipes with a weight of their own are outside the budget
 }
 
 func (a *Adversary) on(kind string) bool { return a.Kinds[kind] }
@@ -55,7 +63,17 @@ func (a *Adversary) coin(mod uint64, parts ...string) uint64 {
 }
 
 func injectedTag(t string) bool {
-	return strings.HasPrefix(t, "byz-forge") || strings.HasPrefix(t, "byz-replay") || strings.HasPrefix(t, "outsider")
+	return strings.HasPrefix(t, "byz-forge") || strings.HasPrefix(t, "byz-replay") || strings.HasPrefix(t, "outsider") || strings.HasPrefix(t, "byz-collude")
+}
+
+// group2 tells whether honest party v belongs to the second group of a colluding pair's split.
+func (a *Adversary) group2(v uint16) bool {
+	for i, h := range a.Honest {
+		if h == v {
+			return i%2 == 1
+		}
+	}
+	return false
 }
 
 func alter(p []byte) []byte {
@@ -78,6 +96,36 @@ func (a *Adversary) Filter(m *netsim.Msg) []*netsim.Msg {
 		return []*netsim.Msg{m}
 	}
 	id := fmt.Sprintf("%d>%d/%x", m.From, m.To, sha(m.Data)[:6])
+	if a.Collude != nil {
+		b1, b2 := a.Collude[0], a.Collude[1]
+		if a.Byz[m.To] {
+			return []*netsim.Msg{m}
+		}
+		if wr.IsAck {
+			if wr.About == b1 || wr.About == b2 {
+				// what the pair says about each other is scripted (scan), not what their honest stacks would say
+				a.W.Faults["byz-withhold-ack"]++
+				return nil
+			}
+			return []*netsim.Msg{m}
+		}
+		h, err := scripted.Decode(wr.Payload)
+		if err != nil || !h.Bcast {
+			return []*netsim.Msg{m}
+		}
+		if m.From == b2 {
+			a.W.Faults["byz-withhold-payload"]++
+			return nil
+		}
+		if a.group2(m.To) {
+			a.W.Faults["byz-equivocate"]++
+			c := *m
+			c.Data = EncodePayload(alter(wr.Payload))
+			c.Tag = "byz-equivocate"
+			return []*netsim.Msg{&c}
+		}
+		return []*netsim.Msg{m}
+	}
 	if wr.IsAck {
 		switch {
 		case a.on("byz-withhold-selective") && a.coin(10, "dropack", id) == 0:
@@ -134,6 +182,15 @@ func (a *Adversary) add(key, kind string, f func()) {
 	a.pending = append(a.pending, &recipe{key: key, kind: kind, fire: f})
 }
 
+// addW adds a recipe with a scheduling weight of its own, outside the injection budget.
+func (a *Adversary) addW(key, kind string, weight float64, f func()) {
+	n := len(a.pending)
+	a.add(key, kind, f)
+	if len(a.pending) > n {
+		a.pending[n].weight = weight
+	}
+}
+
 func (a *Adversary) inject(from, to uint16, topic, data []byte, kind string, head bool) {
 	m := a.W.Inject(from, to, uint8(tss.MsgTypeMPC), topic, data, kind)
 	if head {
@@ -161,6 +218,24 @@ func (a *Adversary) scan() {
 		}
 		topic := m.Topic
 		base := fmt.Sprintf("%x/%x", m.Topic[:2], sha(m.Data)[:5])
+		if a.Collude != nil {
+			b1, b2 := a.Collude[0], a.Collude[1]
+			if wr.IsAck || m.From != b1 || a.Byz[m.To] {
+				continue
+			}
+			h, err := scripted.Decode(wr.Payload)
+			if err != nil || !h.Bcast {
+				continue
+			}
+			v := m.To
+			shown := append([]byte(nil), wr.Payload...)
+			mirror := alter(shown)
+			round := h.Round
+			a.addW(fmt.Sprintf("inj:mirror:%d>%d:%s", b2, v, base), "byz-collude-mirror", 3, func() { a.inject(b2, v, topic, EncodePayload(mirror), "byz-collude-mirror", false) })
+			a.addW(fmt.Sprintf("inj:ackpeer:%d>%d:%s", b2, v, base), "byz-collude-ack", 3, func() { a.inject(b2, v, topic, EncodeAck(round, b1, sha(shown)), "byz-collude-ack", false) })
+			a.addW(fmt.Sprintf("inj:ackpeer:%d>%d:%s", b1, v, base), "byz-collude-ack", 3, func() { a.inject(b1, v, topic, EncodeAck(round, b2, sha(mirror)), "byz-collude-ack", false) })
+			continue
+		}
 		if !wr.IsAck {
 			h, err := scripted.Decode(wr.Payload)
 			if err != nil {
@@ -240,18 +315,24 @@ func (a *Adversary) scan() {
 // Proposals offers the pending injections to the scheduler.
 func (a *Adversary) Proposals() []netsim.Proposal {
 	a.scan()
-	if a.nFired >= a.Budget {
-		return nil
-	}
 	var out []netsim.Proposal
 	for _, r := range a.pending {
 		if a.fired[r.key] {
 			continue
 		}
+		if r.weight == 0 && a.nFired >= a.Budget {
+			continue
+		}
 		r := r
-		out = append(out, netsim.Proposal{Key: r.key, Weight: 0.4, Fire: func() {
+		wgt := 0.4
+		if r.weight > 0 {
+			wgt = r.weight
+		}
+		out = append(out, netsim.Proposal{Key: r.key, Weight: wgt, Fire: func() {
 			a.fired[r.key] = true
-			a.nFired++
+			if r.weight == 0 {
+				a.nFired++
+			}
 			r.fire()
 		}})
 		if len(out) >= 8 {
